@@ -93,7 +93,7 @@ prop("C04", level="proof", bounded=True,
      text="The merge loops of a & b, a | b, a ^ b, a - b (equal-arity path, integer coordinates, leaf ranks, collection off) are proved against the "
           "truth tables stated by membership, not by a merge recursion: strictly ascending output, every output coordinate is in the right operands with "
           "the operands' own payload objects (identity), a fresh default box for the absent side that is a new object at every coordinate (none of the payloads "
-          "delivered before it), mask naming exactly the sides present, and completeness "
+          "delivered before it), mask naming exactly the sides present, termination (every iteration of every merge loop consumes an operand element), and completeness "
           "(every coordinate of the set operation is yielded) -- for all operand sequences, all interleavings, all three tail loops; operands unmodified "
           "(frame). What a fiber presents is proved too: Fiber.__iter__'s format dispatch (owner / rank attributes -> iterOccupancy = iterRange(None, None) for a "
           "compressed rank, iterActiveShape = iterRangeShape over the active range for an uncompressed leaf rank) yields a strictly ascending sequence and touches "
